@@ -24,7 +24,7 @@ def slab_configs(tier):
 def run_slab(ctx, prefix, std=False, harnesses=None, jobs=None):
     ths = []
     # every perform_op harness needs several GB: at most 4 configurations (x `jobs` harnesses) are in flight at a time
-    gate = threading.Semaphore(4 if ctx.tier == "quick" else 3)
+    gate = threading.Semaphore(4 if ctx.tier == "quick" else 2)
 
     def gated(*a, **kw):
         with gate:
@@ -35,7 +35,7 @@ def run_slab(ctx, prefix, std=False, harnesses=None, jobs=None):
                                                                  "@UNWIND@": str(max(count * t + 2, 12)), "@SCALAR@": scalar, "@KINDS@": str(kinds)})
         th = threading.Thread(target=gated, args=(ctx, ov, harnesses or SLAB_HARNESSES),
                               kwargs=dict(timeout_s=1200 if ctx.tier == "quick" else 3000, mem_gb=20 if ctx.tier == "quick" else 30, replay_kind="slab", prefix="%s/count=%d,T=%d,%s/" % (prefix, count, t, "mapped" if mapped else "identity"),
-                                          jobs=jobs or 4))
+                                          jobs=jobs or (4 if ctx.tier == "quick" else 3)))
         th.start()
         ths.append(th)
     for th in ths:
